@@ -25,6 +25,7 @@ import (
 	"bytes"
 	"encoding/hex"
 	"fmt"
+	"os"
 	"sort"
 	"strconv"
 	"strings"
@@ -72,6 +73,9 @@ type KeyMonSummary struct {
 	NFindings             int            `json:"n_findings"`
 	Findings              []KMFinding    `json:"findings"` // at most kmMaxPerClass per (kind, functions), kmMaxFindings in all
 }
+
+// VERIF_KM_DEBUG=1: list on stderr what was judged to be outside the domains
+var kmDebug = os.Getenv("VERIF_KM_DEBUG") != ""
 
 const (
 	kmMaxFindings = 60
@@ -444,6 +448,9 @@ func (m *keyMon) observe(fi int, args []pkArg, result string) {
 		}
 		if !in {
 			m.sum.OutOfDomainCollisions++
+			if kmDebug {
+				fmt.Fprintf(os.Stderr, "out-of-domain collision: %s | %s\n", kmPretty(m.fs[fi].name, o.args), kmPretty(m.fs[fi].name, args))
+			}
 			continue
 		}
 		m.report("collision", spec.theorem,
@@ -526,6 +533,9 @@ func (m *keyMon) finish() *KeyMonSummary {
 				}
 				if !spec.domain(s.args, subj, k.args) {
 					m.sum.OutOfDomainOvermatch++
+					if kmDebug {
+						fmt.Fprintf(os.Stderr, "out-of-domain overmatch: %s | %s\n", kmPretty(spec.sub, s.args), kmPretty(spec.key, k.args))
+					}
 					continue
 				}
 				m.report("scan-overmatch", spec.theorem,
